@@ -36,6 +36,15 @@ def routesApply (routes : List (RouteKey × Nat)) (upd : List (RouteKey × Optio
     | some r => routeInsert acc e.1 r
     | none => acc.filter (fun p => p.1 != e.1)) routes
 
+/-- A `ClientRoutesUpdate` built by inserting the entries one after the other into the (HashMap-backed) update:
+a later entry for the same key replaces the earlier one. -/
+def mkRoutesUpdate (entries : List (RouteKey × Option Nat)) : List (RouteKey × Option Nat) :=
+  entries.foldl (fun acc e => routeInsert acc e.1 e.2) []
+
+/-- A `ClientRoutes` snapshot built by `Extend<ClientRoute>` (insertion, later wins). -/
+def mkRoutes (entries : List (RouteKey × Nat)) : List (RouteKey × Nat) :=
+  entries.foldl (fun acc e => routeInsert acc e.1 e.2) []
+
 /-- `Metadata` as far as the merges look at it: topology tag and (optional) client routes. -/
 structure Meta where
   peers : Nat
@@ -132,6 +141,13 @@ def kind : Option Update → String
 def hintsOf : Option Update → List (Nat × Bool)
   | some u => u.hints
   | none => []
+
+/-- Client routes the consumer finds: pending partial update (`none` port = removal), or the full snapshot;
+outer `none` = no client-routes information. -/
+def routesOf : Option Update → Option (List (RouteKey × Option Nat))
+  | some { changes := some (.full m _), .. } => m.clientRoutes.map (fun rs => rs.map fun e => (e.1, some e.2))
+  | some { changes := some (.part p), .. } => p.clientRoutes
+  | _ => none
 
 /-- The refresh id an operation attaches. -/
 def Op.refresh : Op → List Nat
